@@ -1,4 +1,5 @@
 import MiniconfVerif.Lemmas.IterEnum
+import MiniconfVerif.Lemmas.GenTieLoop
 
 /-! # C03 — node iteration yields every leaf exactly once, in key order, nothing else
 
@@ -26,6 +27,27 @@ theorem nodes_enumerates_leaves (s : Schema) (hwf : s.WF) (hsm : s.Small) (D : N
       ((s.leaves.map fun p => Polled.item (.node (tgtAt s fresh p) (.leaf p.length))) ++
         List.replicate n Polled.finished).take n :=
   poll_init s hwf hsm D fresh hacc hD n
+
+open MiniconfVerif.Gen MiniconfVerif.Gen.Core MiniconfVerif.GenTie in
+/-- **The translated iterator enumerates the leaves.** `nodes_enumerates_leaves` for `NodeIter::next` **as translated from
+iter.rs** (the `loop` of `next` run as `nextG`, started at the translated `NodeIter::default()`): for every well-formed type,
+every `D ≥ max_depth`, every accepting target and every `n`, polling the translated code `n` times returns exactly the first
+`n` leaves in key order, each once, each as a leaf node of its depth with the target transcoded along that leaf, and `None`
+from then on.  `tcN` / `tcU` stand for the two `transcode` calls in the loop body and are required to return what the model's
+`Schema.transcode` returns (that is C04's subject). -/
+theorem source_next_enumerates_leaves (s : Schema) (hwf : s.WF) (hsm : s.Small) (D : Nat) (hD : s.maxDepth ≤ D)
+    (fresh : Target) (hacc : Accepts s fresh)
+    (tcN : List Nat → Except Traversal (Target × Node)) (tcU : List Nat → Except Traversal (Unit × Node))
+    (hN : ∀ st, tcToGen (s.transcode (stateKeys st) fresh) = some (tcN st))
+    (hU : ∀ st, tcUToGen (s.transcode (stateKeys st) .unit) = some (tcU st)) (n : Nat) :
+    innerPolled itemOf (nextG D tcN tcU) n (NodeIter.default D) =
+      ((s.leaves.map fun p => Polled.item (.node (tgtAt s fresh p) (.leaf p.length))) ++
+        List.replicate n Polled.finished).take n := by
+  have hlen : (IterSt.init D).state.length = D := by simp [IterSt.init]
+  have h := poll_tie s D fresh tcN tcU hN hU n (IterSt.init D) hlen
+  rw [show itToGen (IterSt.init D) = NodeIter.default D from rfl] at h
+  rw [h]
+  exact nodes_enumerates_leaves s hwf hsm D hD fresh hacc n
 
 /-- the target yielded with a leaf is the one `transcode` produces from that leaf's own key -/
 theorem yielded_target_is_transcoding (s : Schema) (hwf : s.WF) (hsm : s.Small) (fresh : Target)
